@@ -208,3 +208,30 @@ def graph_ident_obligation(prop="C10", replay=None):
         if replay:
             r.replay = replay()
     return [r]
+
+
+def ident_obligation(prop="C10", replay=None):
+    """an entity's identifier - file name of its page, and the part of its anchor id after the kind - comes from the project-wide NameSelector (under contract {prop}.A.NameSelector.get_name:
+    different entities of one kind get different names, `~N` suffixes).  Every `ident` property of ford/sourceform.py returns `namelist.get_name(self)` - or, for a procedure
+    of an interface block, the name of that block, or the inherited property - on every path; nothing else (the bare name, say, which equally named dummy arguments share)."""
+    import ast
+    from harness import loader
+    from harness.core import OR, PROVED, REFUTED, UNKNOWN
+    _, tree = loader.module_source("ford.sourceform")
+    defs = [(cls.name, fn) for cls in tree.body if isinstance(cls, ast.ClassDef) for fn in cls.body if isinstance(fn, ast.FunctionDef) and fn.name == "ident"]
+    if not defs:
+        return [OR(id=f"{prop}.S.ident.anchor", status=UNKNOWN, kind="S", target="ford.sourceform", detail="no `ident` property found")]
+    out = []
+    allowed = ("namelist.get_name(self)", "namelist.get_name(self.parent)", "super().ident")
+    for cname, fn in defs:
+        rets = [ast.unparse(r.value) if r.value is not None else "None" for r in ast.walk(fn) if isinstance(r, ast.Return)]
+        ok = bool(rets) and all(r in allowed for r in rets) and (cname != "FortranBase" or rets == ["namelist.get_name(self)"])
+        r = OR(id=f"{prop}.S.{cname}.ident.comes_from_the_name_selector", status=PROVED if ok else REFUTED, kind="S", role="post", backend="ast", target=f"ford.sourceform.{cname}.ident",
+               desc=f"{cname}.ident returns {rets}: always the NameSelector's name for the entity (or for the interface block of an interface procedure)")
+        if not ok:
+            r.witness = {"returns": rets}
+            r.detail = "some entities get an identifier that is not made unique: equally named items of one page share an anchor id"
+            if replay:
+                r.replay = replay()
+        out.append(r)
+    return out
